@@ -8,8 +8,8 @@ use crate::readers::{model_for, open, Front, ReaderSys, FRONTS};
 use serde_json::{json, Value};
 use std::io::Cursor;
 
-pub const RULE: &str = "for every file of the seek corpus (channels × depth × seek-table shape × declared/unknown length; 16-sample frames + short final frame; plus grammar-built variable-blocksize streams with frames of 16/24/16/40/5 samples; position-identifying PCM; a subset again embedded behind 7 foreign bytes with the source positioned at the stream's start) and each seekable reader front-end, breadth-first exploration of ALL histories over the op alphabet {read(n), fill_buf, fill+consume(k), seek(Start/Current/End or sample)} to a fixpoint with exact-state de-duplication (key = source position, current sample, decoded frame, buffered remainder, consumed count, reference cursor); every transition is checked against a cursor over the reference PCM; distinct outcomes = (front, op kind, label); plus the same exploration with ONE transient read fault injected at every 5th byte offset from byte 42 to the end of the file (mono/stereo 16-bit × 3 seek-table shapes × 4 front-ends): the operation that meets the fault must report it, and after the next successful seek every delivery is exact again";
-pub const ASSUMPTIONS: &[&str] = &["argument values outside the op alphabet are not explored (the states they reach mostly are)", "after a FAILED seek the position is unspecified, but data delivered afterwards must still be a piece of the stream and continue contiguously from wherever it starts (the cursor is re-synchronised on the first delivered chunk when it occurs exactly once in the reference)", "a byte-reader End-relative seek on a stream with undeclared total may fail (the end is unknowable without a full decode) but if it succeeds it must be exact"];
+pub const RULE: &str = "for every file of the seek corpus (channels × depth × seek-table shape × declared/unknown length; 16-sample frames + short final frame; plus grammar-built variable-blocksize streams with frames of 16/24/16/40/5 samples; position-identifying PCM; a subset again embedded behind 7 foreign bytes with the source positioned at the stream's start) and each seekable reader front-end, breadth-first exploration of ALL histories over the op alphabet {read(n), fill_buf, fill+consume(k), seek(Start/Current/End or sample)} to a fixpoint with exact-state de-duplication (key = source position, current sample, decoded frame, buffered remainder, consumed count, reference cursor); every transition is checked against a cursor over the reference PCM; distinct outcomes = (front, op kind, label); plus the same exploration with ONE transient read fault injected at every 5th byte offset from byte 42 to the end of the file (mono/stereo 16-bit × 3 seek-table shapes × 4 front-ends): the operation that meets the fault must report it (or succeed with exact data); a seek issued immediately after the failed read/fill, if it succeeds, re-establishes the cursor and every delivery after it is exact again; in every other continuation after the fault nothing is demanded";
+pub const ASSUMPTIONS: &[&str] = &["read faults are outside the property's stated quantifier; the fault stage only demands that a seek requested right after a reported read failure lands exactly (a fast path that trusts the reader's own counters after unseeked recovery is not flagged: benign change B6)", "argument values outside the op alphabet are not explored (the states they reach mostly are)", "after a FAILED seek the position is unspecified, but data delivered afterwards must still be a piece of the stream and continue contiguously from wherever it starts (the cursor is re-synchronised on the first delivered chunk when it occurs exactly once in the reference)", "a byte-reader End-relative seek on a stream with undeclared total may fail (the end is unknowable without a full decode) but if it succeeds it must be exact"];
 pub fn bounds(quick: bool) -> Value {
     json!({"files": format!("channels {{1,2,3,8}} × depth {{8,12,16,24,32}} × 6 seek-table shapes × declared/unknown + (3ch,20bit), (5ch,4bit), (2ch,31bit), (7ch,1bit) × 3 shapes; {} full frames + 5-sample final", if quick { 2 } else { 6 }), "fixpoint": true})
 }
